@@ -7,22 +7,6 @@ From PVG Require Import PyGen.
 Import ListNotations.
 Open Scope Z_scope.
 
-Lemma py_first_spec (f : Z -> bool) : forall (xs : list Z),
-  match py_first xs (fun n => if f n then Ok (Some n) else Ok None) with
-  | Ok (Some W) => exists pre post, xs = pre ++ W :: post /\ f W = true /\ forall m, In m pre -> f m = false
-  | Ok None => forall m, In m xs -> f m = false
-  | Raise _ => False
-  end.
-Proof.
-  induction xs as [|x r IH]; cbn [py_first]; [intros m []|].
-  destruct (f x) eqn:E; cbn [bind].
-  - exists [], r. split; [reflexivity|]. split; [exact E|intros m []].
-  - destruct (py_first r (fun n => if f n then Ok (Some n) else Ok None)) as [[W|]|e]; [| |exact IH].
-    + destruct IH as [pre [post [Hx [HW Hpre]]]]. exists (x :: pre), post. split; [rewrite Hx; reflexivity|]. split; [exact HW|].
-      intros m [<-|Hm]; [exact E|apply Hpre; exact Hm].
-    + intros m [<-|Hm]; [exact E|apply IH; exact Hm].
-Qed.
-
 Theorem window_is_the_first_negative_lag (gneg : Z -> bool) (w : nat) :
   (2 <= w)%nat ->
   exists W, gamma_method_window_search gneg (Z.of_nat w) = Ok W
@@ -32,33 +16,35 @@ Theorem window_is_the_first_negative_lag (gneg : Z -> bool) (w : nat) :
 Proof.
   intro Hw. unfold gamma_method_window_search.
   change 1 with (Z.of_nat 1) at 1. rewrite zrange_seq.
-  pose proof (py_first_spec (fun n => gneg (n - 1) || (n >=? Z.of_nat w - 1)) (map Z.of_nat (seq 1 (w - 1)))) as S.
+  pose proof (py_first_seq (fun n => gneg (n - 1) || (n >=? Z.of_nat w - 1)) (w - 1) 1) as S.
   destruct (py_first (map Z.of_nat (seq 1 (w - 1))) _) as [[W|]|e]; cbn [bind]; [| |destruct S].
-  - destruct S as [pre [post [Hx [HW Hpre]]]]. exists W. split; [reflexivity|].
-    assert (HinW : In W (map Z.of_nat (seq 1 (w - 1)))) by (rewrite Hx; apply in_or_app; right; left; reflexivity).
-    apply in_map_iff in HinW. destruct HinW as [k [<- Hk]]. apply in_seq in Hk.
-    split; [lia|]. split.
-    + intros m Hm.
-      (* every lag before W is in [pre]: the list is strictly increasing *)
-      assert (Hmin : In m pre).
-      { assert (Hmem : In m (map Z.of_nat (seq 1 (w - 1)))) by (apply in_map_iff; exists (Z.to_nat m); split; [lia|apply in_seq; lia]).
-        rewrite Hx in Hmem. apply in_app_or in Hmem. destruct Hmem as [H|[H|H]]; [exact H|lia|].
-        exfalso.
-        (* position argument: m < W but m occurs after W in an increasing list *)
-        assert (Hsorted : forall (l1 l2 : list Z) a b, map Z.of_nat (seq 1 (w - 1)) = l1 ++ a :: l2 -> In b l2 -> a < b).
-        { intros l1 l2 a b Hl Hb.
-          assert (G : forall n s l1 l2 a b, map Z.of_nat (seq s n) = l1 ++ a :: l2 -> In b l2 -> a < b).
-          { clear. induction n as [|n IH]; intros s l1 l2 a b Hl Hb; [destruct l1; discriminate|].
-            cbn [seq map] in Hl. destruct l1 as [|y l1]; cbn [app] in Hl; injection Hl as Ha Hl.
-            - subst a. rewrite <- Hl in Hb. apply in_map_iff in Hb. destruct Hb as [k [<- Hk]]. apply in_seq in Hk. lia.
-            - eapply IH; eassumption. }
-          eapply G; eassumption. }
-        pose proof (Hsorted pre post (Z.of_nat k) m Hx H). lia. }
-      specialize (Hpre m Hmin). cbv beta in Hpre. apply orb_false_iff in Hpre. tauto.
-    + cbv beta in HW. apply orb_true_iff in HW. destruct HW as [H|H]; [right; exact H|left; lia].
-  - (* no hit is impossible: n = w - 1 satisfies the second disjunct *)
-    exfalso. assert (Hin : In (Z.of_nat (w - 1)) (map Z.of_nat (seq 1 (w - 1)))) by (apply in_map; apply in_seq; lia).
-    specialize (S _ Hin). cbv beta in S. apply orb_false_iff in S. destruct S as [_ S]. lia.
+  - destruct S as [k [-> [Hk [Hf Hpre]]]]. exists (Z.of_nat k). split; [reflexivity|]. split; [lia|]. split.
+    + intros m Hm. specialize (Hpre (Z.to_nat m) ltac:(lia)). rewrite Z2Nat.id in Hpre by lia. apply orb_false_iff in Hpre. tauto.
+    + apply orb_true_iff in Hf. destruct Hf as [H|H]; [right; exact H|left; lia].
+  - exfalso. specialize (S (w - 1)%nat ltac:(lia)). apply orb_false_iff in S. destruct S as [_ S]. lia.
+Qed.
+
+(* the tau_exp branch: with h = w_max // 2 >= 2 (the code raises ValueError otherwise) the loop stops at the first lag n >= 1 at which the
+   tail criterion rho(n) - N_sigma drho(n) < 0 holds, and at max(1, h - 2) at the latest *)
+Theorem tauexp_window_is_the_first_lag_meeting_the_criterion (crit : Z -> bool) (w : nat) :
+  (2 <= w / 2)%nat ->
+  let h := Z.of_nat w / 2 in
+  exists W, gamma_method_tauexp_search crit (Z.of_nat w) = Ok W
+            /\ 1 <= W <= h - 1
+            /\ (forall m, 1 <= m < W -> crit m = false /\ m < h - 2)
+            /\ (crit W = true \/ h - 2 <= W).
+Proof.
+  intro Hw. cbv zeta. unfold gamma_method_tauexp_search.
+  assert (Hh : Z.of_nat w / 2 = Z.of_nat (w / 2)) by (rewrite Nat2Z.inj_div; reflexivity).
+  rewrite Hh. change 1 with (Z.of_nat 1) at 1. rewrite zrange_seq.
+  pose proof (py_first_seq (fun n => crit n || (n >=? Z.of_nat (w / 2) - 2)) (w / 2 - 1) 1) as S.
+  destruct (py_first (map Z.of_nat (seq 1 (w / 2 - 1))) _) as [[W|]|e]; cbn [bind]; [| |destruct S].
+  - destruct S as [k [-> [Hk [Hf Hpre]]]]. exists (Z.of_nat k). split; [reflexivity|]. split; [lia|]. split.
+    + intros m Hm. specialize (Hpre (Z.to_nat m) ltac:(lia)). rewrite Z2Nat.id in Hpre by lia. apply orb_false_iff in Hpre.
+      destruct Hpre as [H1 H2]. split; [exact H1|lia].
+    + apply orb_true_iff in Hf. destruct Hf as [H|H]; [left; exact H|right; lia].
+  - exfalso. specialize (S (Nat.max 1 (w / 2 - 2)) ltac:(lia)). apply orb_false_iff in S. destruct S as [_ S]. lia.
 Qed.
 
 Print Assumptions window_is_the_first_negative_lag.
+Print Assumptions tauexp_window_is_the_first_lag_meeting_the_criterion.
